@@ -81,7 +81,7 @@ theorem executeTx_ok {env : Env} {body : Body} {cid : Bytes} {W W' : World} {ver
     {e : LogEntry} (h : executeTx H env body cid W verified t = .ok (W', e)) :
     e.account = getAddress W.led.names t.account ∧ e.tx = t ∧
     (verified = [] ∨ verified = e.account) ∧
-    validate H cid env.isPublic t = none ∧
+    validate H env.maxAER cid env.isPublic t = none ∧
     validateSender env (W.nonce e.account) (W.led.bal e.account) t = none ∧
     W'.nonce = upd W.nonce e.account t.nonce := by
   unfold executeTx at h
@@ -176,7 +176,7 @@ theorem execTxs_ok {env : Env} {body : Body} {cid : Bytes} :
     ∀ {txs : List Tx} {W W' : World} {log : List LogEntry},
       execTxs H env body cid W txs = .ok (W', log) →
       Trace W.nonce log W'.nonce ∧ log.map (·.tx) = txs ∧
-      (∀ e ∈ log, validate H cid env.isPublic e.tx = none ∧ ∃ ns, e.account = getAddress ns e.tx.account) := by
+      (∀ e ∈ log, validate H env.maxAER cid env.isPublic e.tx = none ∧ ∃ ns, e.account = getAddress ns e.tx.account) := by
   intro txs
   induction txs with
   | nil =>
@@ -213,7 +213,7 @@ theorem runBranch_ok {env : Env} {body : Body} {cidOf : Nat → Bytes} {useMempo
     ∀ {blocks : List (List Tx)} {i : Nat} {W W' : World} {log : List LogEntry},
       runBranch H Verify env body cidOf useMempool hitOf i W blocks = some (W', log) →
       Trace W.nonce log W'.nonce ∧
-      (∀ e ∈ log, (∃ j, validate H (cidOf j) env.isPublic e.tx = none) ∧ ∃ ns, e.account = getAddress ns e.tx.account) := by
+      (∀ e ∈ log, (∃ j, validate H env.maxAER (cidOf j) env.isPublic e.tx = none) ∧ ∃ ns, e.account = getAddress ns e.tx.account) := by
   intro blocks
   induction blocks with
   | nil =>
